@@ -2,8 +2,8 @@
     [XRep v items]: the shape of the value ParsedValue::new builds for a source of the full AST
     [xitem] of Foreign.v (arguments kept in a key-sorted map, each string argument parsed again).
     Theorem: on every value of that shape [inline] is the source-level semantics [xdenote] — argument
-    maps in BTreeMap order against arguments in source order, arguments inlined in the target's
-    effective locale, substitution through chains.  That the parser produces that shape for printed
+    maps in BTreeMap order against arguments in source order, arguments inlined in the locale the reference
+    is written in (the target in its effective locale), substitution through chains.  That the parser produces that shape for printed
     sources ([parse_args_statement]) is proved in ForeignSound7.v from the round trip of
     RoundTripRef1-4.v; here full soundness is reduced to it ([sound_from_parse_args]). *)
 From Coq Require Import List NArith ZArith Bool Arith Lia Wf_nat Permutation.
@@ -193,19 +193,19 @@ Proof.
   - rewrite (xgv_absent next target (or_introl E)). eapply IH; exact H.
 Qed.
 
-Lemma ilook2_inv_args rec target args L d : ilook vals dflt inherits rec 2 target args L = Some d ->
+Lemma ilook2_inv_args rec target args A L d : ilook vals dflt inherits rec 2 target args A L = Some d ->
   exists L' T body a, get_value_at vals L' target = Some (NVal T) /\ rec L' T = Some body
-    /\ iargs rec L' args = Some a /\ d = subst_pieces a (pc_norm body)
+    /\ iargs rec A args = Some a /\ d = subst_pieces a (pc_norm body)
     /\ ((L' = L) \/ (get_value_at vals L target = Some NDefault /\ L' = walk vals dflt inherits (S (length inherits)) [L] L target)).
 Proof.
   intros H. cbn [ForeignSound.ilook] in H.
   destruct (get_value_at vals L target) as [[T| |sub]|] eqn:E0; try discriminate.
-  - destruct (rec L T) as [body|] eqn:Er; [|discriminate]. destruct (iargs rec L args) as [a|] eqn:Ea; [|discriminate].
+  - destruct (rec L T) as [body|] eqn:Er; [|discriminate]. destruct (iargs rec A args) as [a|] eqn:Ea; [|discriminate].
     inversion H; subst. exists L, T, body, a. repeat split; auto.
   - destruct (str_eqb L dflt); [discriminate|].
     set (L1 := walk vals dflt inherits (S (length inherits)) [L] L target) in *.
     destruct (get_value_at vals L1 target) as [[T| |sub]|] eqn:E1; try discriminate.
-    + destruct (rec L1 T) as [body|] eqn:Er; [|discriminate]. destruct (iargs rec L1 args) as [a|] eqn:Ea; [|discriminate].
+    + destruct (rec L1 T) as [body|] eqn:Er; [|discriminate]. destruct (iargs rec A args) as [a|] eqn:Ea; [|discriminate].
       inversion H; subst. exists L1, T, body, a. repeat split; auto.
     + destruct (str_eqb L1 dflt) eqn:Ed; [discriminate|]. exfalso.
       destruct (walk_spec vals dflt inherits target (S (length inherits)) [L] L) as [Hw|(nd & Hn & Hd)]; fold L1 in Hw || fold L1 in Hn.
@@ -274,13 +274,13 @@ Proof.
   - destruct (inline_bloc3_inv _ _ _ _ _ _ _ _ _ Hin) as (db & dx & da & Eb & Ex & Ea & ->).
     destruct (inline_foreign_inv _ _ _ _ _ _ _ _ _ Ex) as (f0 & -> & El).
     destruct (IHm _ _ _ _ Rb Eb) as (db' & Eb' & Nb). destruct (IHm _ _ _ _ Ra Ea) as (da' & Ea' & Na).
-    destruct (ilook2_inv_args _ _ _ _ _ El) as (L' & T & body & a & Eg & Er & Eia & -> & HL).
+    destruct (ilook2_inv_args _ _ _ _ _ _ El) as (L' & T & body & a & Eg & Er & Eia & -> & HL).
     destruct (xgv_val _ _ _ Eg) as (items' & Es & R').
     destruct (IH f0 ltac:(lia) _ _ _ _ R' Er) as (body' & Ebody & Nbody).
     apply (xdenote_mono_S src dflt inherits f0) in Ebody.
     (* arguments *)
-    destruct (iargs_xargs f0 L' (IH f0 ltac:(lia)) pargs sargs RA a Eia) as (a1 & Ea1 & F1).
-    apply (xargs_mono _ _ L' sargs a1 (xdenote_mono_S src dflt inherits f0)) in Ea1.
+    destruct (iargs_xargs f0 L (IH f0 ltac:(lia)) pargs sargs RA a Eia) as (a1 & Ea1 & F1).
+    apply (xargs_mono _ _ L sargs a1 (xdenote_mono_S src dflt inherits f0)) in Ea1.
     destruct (xargs_perm _ _ _ _ _ Hperm Ea1) as (a2 & Ea2 & P2).
     assert (Heq : args_equiv a a2).
     { intros k. rewrite (args_equiv_forall2 a a1 F1 k). f_equal. apply assoc_perm; [exact P2|].
